@@ -4,6 +4,7 @@
    short-read source, encryption layer over them) no operation reaches a Crash site or runs
    out of fuel, that loop iterations are bounded by the number of offsets / the input length,
    and that what the footer parser allocates is bounded by the input length. *)
+From MLA Require Import Limit.
 From MLA Require Import Base Stream Blocks Reader EncLayer Inst Run
   Total TotalFooter TotalReader TotalRun TotalEnc.
 From MLAGen Require Src.
@@ -38,7 +39,7 @@ Theorem C08_footer_offsets_bound :
   forall b m name fi, parse_footer_map b = Some m -> In (name, fi) m ->
     8 * len (fi_offsets fi) <= len b /\ len name <= len b.
 Proof. exact parse_footer_map_offsets. Qed.
-Theorem C08_read_footer_total :
+Theorem C08_read_footer_total {LIM : Limit} :
   forall (S : Stream) (I : st S -> Prop) (pos : st S -> N) (M : N), Tame S I pos M ->
   forall s, I s ->
     match read_footer S s with
@@ -47,7 +48,7 @@ Theorem C08_read_footer_total :
     | (_, Crash _) => False
     end.
 Proof. exact read_footer_tame. Qed.
-Theorem C08_ropen_total :
+Theorem C08_ropen_total {LIM : Limit} :
   forall (S : Stream) (I : st S -> Prop) (pos : st S -> N) (M : N), Tame S I pos M ->
   forall s, I s ->
     match ropen S s with
@@ -266,21 +267,23 @@ From MLA.Concrete Require Sha256.
 (* over ANY tame source, from any state of its invariant, with fuel > M and 0 < CACHE: a
    report or an error, never a Crash site (the expect()s at lib.rs:1431 / 1556 are
    unreachable), never out of fuel *)
-Theorem C08_repair_total :
+Theorem C08_repair_total {LIM : Limit} :
   forall FNMAX CACHE T_START T_CONTENT T_EOA T_EOF H (S : Stream) (I : st S -> Prop) (pos : st S -> N) (M : N),
   Tame S I pos M -> 0 < CACHE ->
   forall fuel s0 out0, I s0 -> (N.to_nat M < fuel)%nat ->
     total (repair FNMAX CACHE T_START T_CONTENT T_EOA T_EOF H S fuel s0 out0).
 Proof. exact repair_total. Qed.
-(* sharper: fuel > the bytes that can still be delivered; the only error is the output
-   writer's WrongWriterState (FilenameTooLong cannot occur: the parser bounded the name;
-   append_file_content's short-source error cannot occur: the buffer has the announced length) *)
-Theorem C08_repair_total_strong :
+(* sharper: fuel > the bytes that can still be delivered; the only errors are the output
+   writer's WrongWriterState and the SerializationError of its finalize (EDeser: the footer of
+   the output exceeds the bincode limit BINCODE_MAX_DESERIALIZE, or 2^32 bytes) (FilenameTooLong
+   cannot occur: the parser bounded the name; append_file_content's short-source error cannot
+   occur: the buffer has the announced length) *)
+Theorem C08_repair_total_strong {LIM : Limit} :
   forall FNMAX CACHE T_START T_CONTENT T_EOA T_EOF H (S : Stream) (I : st S -> Prop) (pos : st S -> N) (M : N),
   Tame S I pos M -> 0 < CACHE ->
   forall fuel s0 out0, I s0 -> (N.to_nat (remaining S pos M s0) < fuel)%nat ->
     match repair FNMAX CACHE T_START T_CONTENT T_EOA T_EOF H S fuel s0 out0 with
-    | Ok _ => True | Err e => e = EState | Crash _ => False
+    | Ok _ => True | Err e => e = EState \/ e = EDeser | Crash _ => False
     end.
 Proof. exact repair_total_strong. Qed.
 (* the inner loops never return the model's out-of-fuel marker (which the 'read_block loop
@@ -309,7 +312,7 @@ Proof. exact content_loop_tame. Qed.
 
 (* the fuel is a proof device only: any two amounts above the remaining bytes give the same
    result — no report of repair hides an exhausted loop *)
-Theorem C08_repair_fuel_irrelevant :
+Theorem C08_repair_fuel_irrelevant {LIM : Limit} :
   forall FNMAX CACHE T_START T_CONTENT T_EOA T_EOF H (S : Stream) (I : st S -> Prop) (pos : st S -> N) (M : N),
   Tame S I pos M -> 0 < CACHE ->
   forall fuel fuel' s0 out0, I s0 ->
@@ -319,14 +322,14 @@ Theorem C08_repair_fuel_irrelevant :
 Proof. exact repair_fuel_irrelevant. Qed.
 
 (* layer-less archives: ANY bytes, any start offset, any output writer *)
-Theorem C08_repair_total_plain :
+Theorem C08_repair_total_plain {LIM : Limit} :
   forall FNMAX CACHE T_START T_CONTENT T_EOA T_EOF H, 0 < CACHE ->
   forall (w : bytes) fuel p out0, (N.to_nat (len w) < fuel)%nat ->
     total (repair FNMAX CACHE T_START T_CONTENT T_EOA T_EOF H (Cursor w) fuel p out0).
 Proof. exact repair_total_plain. Qed.
 (* encrypted archives, both fail-safe modes: ANY key stream, tag function and bytes with
    fewer than 2^32 chunks: the constructor, then repair *)
-Theorem C08_repair_total_enc :
+Theorem C08_repair_total_enc {LIM : Limit} :
   forall FNMAX CACHE T_START T_CONTENT T_EOA T_EOF H, 0 < CACHE ->
   forall CH TG ks tagc (unauth : bool) (w : bytes) fuel out0,
   0 < CH -> len w < 2 ^ 32 * CH -> (N.to_nat (len w) < fuel)%nat ->
@@ -338,7 +341,7 @@ Theorem C08_repair_total_enc :
     end.
 Proof. exact repair_total_enc. Qed.
 (* the very call of the Tie-B entry point Run.repair_plain *)
-Theorem C08_repair_plain_entry_total :
+Theorem C08_repair_plain_entry_total {LIM : Limit} :
   forall (k : consts) (body : bytes), 0 < cCACHE k ->
     total (repair (cFNMAX k) (cCACHE k) Src.BT_FileStart Src.BT_FileContent Src.BT_EndOfArchiveData
              Src.BT_EndOfFile Sha256.sha256 (Cursor body) (N.to_nat (len body) + 16) 0 (w_init)).
@@ -379,7 +382,7 @@ Example C08_repair_hostile40 :
   let w := [Src.BT_FileStart] ++ le64 1 ++ le64 2 ++ [97; 98] ++
            [Src.BT_FileContent] ++ le64 1 ++ le64 (2 ^ 64 - 1) ++ [1; 2; 3; 4] in
   len w = 40 /\ 0 < cCACHE consts_verif /\
-  match repair (cFNMAX consts_verif) (cCACHE consts_verif) Src.BT_FileStart Src.BT_FileContent
+  match repair (LIM := Src.BINCODE_MAX_DESERIALIZE_prod) (cFNMAX consts_verif) (cCACHE consts_verif) Src.BT_FileStart Src.BT_FileContent
           Src.BT_EndOfArchiveData Src.BT_EndOfFile Sha256.sha256 (Cursor w) 41 0 (w_init) with
   | Ok (status, unfinished, out) =>
     status = FEofNextBlock /\ unfinished = [[97; 98]] /\ w_final out = true /\
